@@ -248,29 +248,29 @@ def mgf1(alg, seed, maskLen):
     return mgf1_T(alg, seed, ceil_div(maskLen, hlen(alg)))[:maskLen]
 
 
-def low_bits(z):
-    """2^(8 - z) for z = 8 emLen - emBits in 0..7: an octet has its leftmost z bits equal to zero iff it is < low_bits(z),
-    and `octet mod low_bits(z)` is the octet with its leftmost z bits set to zero"""
-    if z == 0:
-        return 256
-    if z == 1:
-        return 128
-    if z == 2:
-        return 64
-    if z == 3:
-        return 32
-    if z == 4:
-        return 16
-    if z == 5:
-        return 8
+def left_mask(z):
+    """the octet whose leftmost z bits are one and whose other bits are zero (z = 8 emLen - emBits in 0..7): 256 - 2^(8 - z)"""
+    if z < 4:
+        if z < 2:
+            if z == 0:
+                return 0
+            return 128
+        if z == 2:
+            return 192
+        return 224
+    if z < 6:
+        if z == 4:
+            return 240
+        return 248
     if z == 6:
-        return 4
-    return 2
+        return 252
+    return 254
 
 
-def clear_left(x, z):
-    """the octet string x (non-empty) with the leftmost z bits of its leftmost octet set to zero"""
-    return i2osp(nth(x, 0) % low_bits(z), 1) + x[1:]
+def clear_left(x, m):
+    """the octet string x (non-empty) with those bits of its leftmost octet set to zero that are one in the octet m
+    (m = left_mask(z): "set the leftmost z bits of the leftmost octet to zero")"""
+    return bytes([nth(x, 0) & ~m]) + x[1:]
 
 
 def emsa_pss_H(alg, mHash, salt):
@@ -288,7 +288,7 @@ def emsa_pss_em(alg, hLen, mHash, emBits, salt, dbMask):
     sLen = len(salt)
     H = emsa_pss_H(alg, mHash, salt)
     DB = rep(bytes(1), emLen - sLen - hLen - 2) + b'\x01' + salt
-    maskedDB = clear_left(xor(DB, dbMask), 8 * emLen - emBits)
+    maskedDB = clear_left(xor(DB, dbMask), left_mask(8 * emLen - emBits))
     return maskedDB + H + b'\xbc'
 
 
@@ -305,10 +305,10 @@ def emsa_pss_ok(alg, hLen, mHash, em, emBits, sLen, dbMask):
         return False
     maskedDB = em[:emLen - hLen - 1]                                # step 5: EM = maskedDB || H || 0xbc
     H = em[emLen - hLen - 1:len(em) - 1]
-    z = 8 * emLen - emBits
-    if nth(maskedDB, 0) >= low_bits(z):                             # step 6: leftmost z bits of maskedDB not all zero
+    m = left_mask(8 * emLen - emBits)
+    if nth(maskedDB, 0) & m != 0:                                   # step 6: leftmost 8 emLen - emBits bits of maskedDB not all zero
         return False
-    DB = clear_left(xor(maskedDB, dbMask), z)                       # steps 7-9
+    DB = clear_left(xor(maskedDB, dbMask), m)                       # steps 7-9
     if not DB.startswith(rep(bytes(1), emLen - hLen - sLen - 2) + b'\x01'):    # step 10: DB = PS || 0x01 || salt, PS zero octets
         return False
     salt = DB[len(DB) - sLen:]                                      # step 11: the last sLen octets of DB
